@@ -135,7 +135,14 @@ type Sched struct {
 	inspect   bool
 	sitesHit  map[string]int
 	hints     map[uint64]string
+	gen       uint64
 }
+
+var genCounter atomic.Uint64
+
+// generation identifies the run: state kept by drop-in types across runs (a pool's free list)
+// is discarded when it changes.
+func (s *Sched) generation() uint64 { return s.gen }
 
 var cur atomic.Pointer[Sched]
 
@@ -226,6 +233,7 @@ func Run(t *testing.T, cfg Config, main func()) (res Result) {
 				hot:      map[string]int{},
 				sitesHit: map[string]int{},
 				hints:    map[uint64]string{},
+				gen:      genCounter.Add(1),
 			}
 			s.rootGoid = goid()
 			if cfg.Strategy == StratPCT {
